@@ -65,6 +65,7 @@ var c15BadNames = []string{
 	"proxy-connection", "upgrade", "unknown-pseudo", "status-pseudo", "empty-path",
 	"header-list-too-long", "header-list-too-long-continuation",
 	"userinfo-in-authority", "userinfo-in-host-without-authority", "path-without-leading-slash",
+	"userinfo-in-authority-scheme-http", "userinfo-in-host-scheme-http",
 }
 
 // c15BigKind is the first of the two "header list larger than the server's limit"
@@ -117,6 +118,10 @@ func c15BadFields(kind int, path string) []string {
 		return cat(m, s, p, []string{"host", "user@dummy.tld"})
 	case 20:
 		return cat(m, s, a, []string{":path", strings.TrimPrefix(path, "/")})
+	case 21: // the rule covers "http" as well as "https"
+		return cat(m, []string{":scheme", "http"}, []string{":authority", "user:pw@dummy.tld"}, p)
+	case 22:
+		return cat(m, []string{":scheme", "http"}, p, []string{"host", "user@dummy.tld"})
 	default:
 		return cat(m, s, a, []string{":path", ""})
 	}
